@@ -65,8 +65,9 @@ def replay_main(args):
     known = findings.load_known()
     bad = 0
     for v in ctx.violations:
-        if (args.prop, v["key"]) in known:
-            print("KNOWN-FINDING: property=%s %s" % (args.prop, known[(args.prop, v["key"])]))
+        pat = findings.match(args.prop, v["key"], known)
+        if pat is not None:
+            print("KNOWN-FINDING: property=%s %s" % (args.prop, known[(args.prop, pat)]))
         else:
             bad += 1
             print("VIOLATION property=%s replay=%s" % (args.prop, args.replay))
@@ -163,6 +164,8 @@ def main(argv=None):
             print("VIOLATION property=%s replay=%s" % (args.prop, v["replay"]))
             print("  key=%s %s" % (v["key"], v["msg"].replace("\n", " | ")[:600]))
         print("%s: %d witness(es) not covered by known_findings.txt" % (args.prop, len(verdict["violations"])))
+        if reasons:
+            print("NOTE also inconclusive: %s" % "; ".join(reasons)[:2000])
         return 1
     if reasons:
         print("INCONCLUSIVE property=%s reason=%s" % (args.prop, "; ".join(reasons)[:3000]))
